@@ -156,6 +156,10 @@ _buffer = [
          bounds='buffer 20..2**33, any fill, two adds of 20..16384 bytes, final flush', entry=['BufferedOutput.add_bytes']),
     dict(fn=H + 'c10.reach_buffer_step', kind='reach', timeout=(60, 60), validate=IO + 'replay_buffer_step'),
     dict(fn=H + 'c10.wit_buffer_two_flushes', kind='witness', timeout=(60, 60), validate=IO + 'replay_buffer_step'),
+    dict(fn=H + 'c10.ob_buffer_file', kind='universal', timeout=(200, 400), replay=IO + 'replay_buffer_file',
+         bounds='real BufferedOutput + real ByteWriter over the file model: buffer 20..2**33, no file / prior file of 0..100000 bytes, label + 1..3 records of 20..16384 bytes: file == label + records after the last flush, a whole number of records after every close',
+         entry=['BufferedOutput.__init__', 'BufferedOutput.add_bytes', 'BufferedOutput.pass_bytes_to_writer', 'ByteWriter.__init__', 'ByteWriter.write_bytes']),
+    dict(fn=H + 'c10.reach_buffer_file', kind='reach', timeout=(60, 60), validate=IO + 'replay_buffer_file'),
     dict(fn=H + 'c10.ob_bytewriter', kind='universal', timeout=(120, 300), replay=IO + 'replay_bytewriter',
          bounds='prior content 0..1e6 bytes; three writes of 1..1e6 bytes; explicit/implicit size', entry=['ByteWriter.write_bytes']),
     dict(fn=H + 'c10.reach_bytewriter', kind='reach', timeout=(60, 60), validate=IO + 'replay_bytewriter'),
@@ -679,6 +683,8 @@ for _p, _o in (('C01', _sulre), ('C14', _sulre), ('C09', _fhlate), ('C14', _fhla
 # cross-registrations: the writer loop and the buffer decide "any size is writable / survives" as much as the segmenter
 SPECS['C15']['obligations'] = SPECS['C15']['obligations'] + _find('C10', 'ob_glue') + _find('C10', 'reach_glue')
 SPECS['C16']['obligations'] = SPECS['C16']['obligations'] + _find('C10', 'ob_buffer_step') + _find('C10', 'reach_buffer_step') + _find('C10', 'wit_buffer_two_flushes')
+for _p in ('C01', 'C02', 'C16'):
+    SPECS[_p]['obligations'] = SPECS[_p]['obligations'] + _find('C10', 'ob_buffer_file') + _find('C10', 'reach_buffer_file')
 SPECS['C04']['obligations'] = SPECS['C04']['obligations'] + _find('C06', 'ob_text_codepoints') + _find('C06', 'reach_text_codepoints')
 for _p in ('C15', 'C16'):
     SPECS[_p]['stubs'] = SPECS[_p]['stubs'] + ['RopeArray / MemWriter (buffer and file stand-ins)']
